@@ -52,6 +52,21 @@ structure Entry where
   enc : String           -- how the harness encodes the content (pem, der, ...); not seen by the model
   deriving DecidableEq, Repr, FromJson, ToJson
 
+/-- what the `context.Context` handed to `GetCertificates` does during the call -/
+inductive CtxKind
+  | background        -- never ends
+  | endedBefore       -- already cancelled / expired when the call starts
+  | endsAtPoll        -- live for the first `n` polls (Err / Done / Deadline), ended from then on
+  | timeout           -- a real `context.WithTimeout` of `n` microseconds (ends whenever it ends)
+  | cancelledAfter    -- a real `context.WithCancel`, cancelled by another goroutine after `n` microseconds
+  deriving DecidableEq, Repr, FromJson, ToJson
+
+structure CtxSpec where
+  kind : CtxKind
+  n : Nat
+  deadline : Bool        -- flavour of the end: `DeadlineExceeded` (true) or `Canceled` (false)
+  deriving DecidableEq, Repr, FromJson, ToJson
+
 structure Input where
   op : Op
   storeType : String
@@ -59,6 +74,8 @@ structure Input where
   dirKind : DirKind
   entries : List Entry   -- in creation order; `os.ReadDir` sorts by name
   decoys : Bool          -- harness plants valid certificates outside the store; not seen by the model
+  ctx : CtxSpec          -- `load` only. `GetCertificates` never looks at its context
+                         -- (`Facts.c13ContextUses = []`, pinned in Props), so neither does the model
   deriving Repr, FromJson, ToJson
 
 structure Obs where
@@ -215,11 +232,17 @@ def expectedIds (i : Input) : List Nat := ((sortEntries i.entries).flatMap (·.c
 /-- every certificate id that occurs in a file of the store -/
 def storeIds (i : Input) : List Nat := (i.entries.flatMap (·.certs)).map (·.id)
 
-/-- the property over observables -/
+/-- the context can end before the call returns (then - and only then - failing a loadable
+store is acceptable: "an error because the caller gave up") -/
+def ctxMayEnd (c : CtxSpec) : Bool := c.kind != .background
+
+/-- the property over observables. Whatever the context does, success means a loadable store and
+the complete set, failure means nothing is returned. -/
 def clauses (i : Input) (o : Obs) : Clauses :=
   match i.op with
   | .load =>
-    [ ("succeeds_iff_known_type_plain_name_real_dir_all_entries_valid_files_nonempty", o.ok == loadable i),
+    [ ("succeeds_only_if_known_type_plain_name_real_dir_all_entries_valid_files_nonempty", !o.ok || loadable i),
+      ("loadable_store_loads_while_the_context_is_live", !loadable i || o.ok || ctxMayEnd i.ctx),
       ("returns_exactly_the_files_certificates_in_directory_order", !o.ok || o.certs == expectedIds i),
       ("nothing_from_anywhere_else", o.certs.all (fun c => (storeIds i).contains c)),
       ("fails_as_a_whole_no_partial_set", o.ok || o.certs.isEmpty) ]
